@@ -39,6 +39,19 @@ func (r *Rng) Chance(pct int) bool { return r.Intn(100) < pct }
 func Pick[T any](r *Rng, xs []T) T { return xs[r.Intn(len(xs))] }
 func (r *Rng) Fork() *Rng          { return NewRng(r.Next()) }
 
+// Perm returns a random permutation of 0..n-1 (Fisher-Yates)
+func (r *Rng) Perm(n int) []int {
+	p := make([]int, n)
+	for i := range p {
+		p[i] = i
+	}
+	for i := n - 1; i > 0; i-- {
+		j := r.Intn(i + 1)
+		p[i], p[j] = p[j], p[i]
+	}
+	return p
+}
+
 func hashString(s string) uint64 {
 	var h uint64 = 1469598103934665603
 	for i := 0; i < len(s); i++ {
